@@ -157,6 +157,43 @@ def alias_feature(check, ctx, case, upto=None):
     return False
 
 
+def group_simplifies(check, ctx, case, index):
+    """True if a multi-name group of the get-interpolants request at `index` is a conjunction that the simplifying term
+    constructor would change: a member equivalent to true / false, two equivalent or complementary members, or a member
+    that is itself a conjunction. (Interpret::getInterpolants builds the group with mkAnd and then looks at the arguments
+    of the result.)"""
+    h = case['hist']
+    cmds = h['commands']
+    c = cmds[index]
+    if c['k'] != 'get-interpolants':
+        return False
+    snap = hist.snapshots(cmds)[index]
+    by_name = {a['name']: a['ref'] for a in snap['asserts'] if a['name']}
+    prelude = check.prelude(case, snap)
+    for g in c['groups']:
+        if len(g) < 2:
+            continue
+        terms = [by_name[n] for n in g if n in by_name]
+        for t in terms:
+            if t.startswith('(and '):
+                return True
+            try:
+                if ctx.refs.truth(prelude, [t]) == 'unsat' or ctx.refs.truth(prelude, ['(not %s)' % t]) == 'unsat':
+                    return True
+            except RefError:
+                pass
+        for i in range(len(terms)):
+            for j in range(i + 1, len(terms)):
+                try:
+                    if ctx.refs.truth(prelude, ['(not (= %s %s))' % (terms[i], terms[j])]) == 'unsat':
+                        return True
+                    if ctx.refs.truth(prelude, ['(not (= %s (not %s)))' % (terms[i], terms[j])]) == 'unsat':
+                        return True
+                except RefError:
+                    pass
+    return False
+
+
 class ArtifactCheck(HistCheck):
     kinds = ()
     report = None  # None: every class the oracles produce
@@ -249,8 +286,10 @@ class C08(ArtifactCheck):
         return case
 
     def signature(self, case, v, ctx=None):
+        opt = {o[0]: o[1] for o in case['options']}
         return {'logic': case['hist']['logic'], 'after_pop': any(c['k'] == 'pop' for c in case['hist']['commands'][:v['index']]),
-                'alias': alias_feature(self, ctx, case, v['index'])}
+                'alias': alias_feature(self, ctx, case, v['index']), 'group_simplifies': group_simplifies(self, ctx, case, v['index']),
+                'lra_alg': opt.get(':interpolation-lra-algorithm')}
 
 
 class C09(C08):
@@ -535,6 +574,7 @@ class C19(HistCheck):
         d0, d1 = death_of(resp0), death_of(resp1)
         if d0 or exc0:
             res['discarded'] = 'base-history-died'
+            res['hash'] = 'base-died'
             return res
         if any(o is not None and has_error(o) for o in pre0) or any(o is not None and c['k'] in STATE_CMDS and has_error(o) for c, o in zip(base['hist']['commands'], outs0)):
             res['discarded'] = 'generated-command-rejected'
